@@ -858,7 +858,16 @@ def section_operators(env, ctx, model):
                 ctx.case({"section": "unary", "op": name, "kind": kd, "struct": st}, ("unary", name, kd, st) if len(x) >= 2 else None)
                 ctx.count("operators:unary")
                 if not compare(env, m, impl, ev):
-                    ctx.disagree("block.unop", {"section": "unary", "fn": name, "self": jsonable(x)}, show_impl(impl), show(env, m, ev))
+                    def un_oracle(c, impl=impl, x=x, name=name):
+                        try:
+                            want = [PYUN[name](b) for b in x.arrays]
+                        except Exception:  # noqa: BLE001
+                            return None if impl[0] == "err" else {"expr": name, "x": c["self"], "scico_result": show_impl(impl), "expected": "error (per-block jax raises)"}
+                        if impl[0] == "ok" and isinstance(impl[1], BA) and len(impl[1]) == len(want) and all(same(w, impl[1].arrays[i]) for i, w in enumerate(want)):
+                            return None
+                        return {"expr": name, "x": c["self"], "scico_result": show_impl(impl), "per_block_jax": be.describe(want)}
+
+                    ctx.disagree("block.unop", {"section": "unary", "fn": name, "self": jsonable(x)}, show_impl(impl), show(env, m, ev), oracle=un_oracle)
     # binary
     lifted = list(t["binary_ops"])
     missing_reflected = [f"__r{k}__" for k in REFLECTABLE if f"__{k}__" in lifted and f"__r{k}__" not in lifted]
@@ -960,8 +969,22 @@ def section_methods(env, ctx, model):
                     ctx.case({"section": "method", "name": name, "struct": st}, ("method", name, st, kd))
                     ctx.count(f"methods:{kind}")
                     if not compare(env, m, impl, ev):
+                        def meth_oracle(c, impl=impl, x=x, name=name, kind=kind, extra=extra):
+                            # documented: properties and methods map along the blocks, giving a BlockArray or a tuple as appropriate
+                            try:
+                                want = [getattr(b, name)(*(extra or [])) if kind == "meth" else getattr(b, name) for b in x.arrays]
+                            except Exception:  # noqa: BLE001
+                                return None
+                            if impl[0] != "ok":
+                                return {"attribute": name, "x": c["self"], "scico_result": show_impl(impl), "per_block_jax": be.describe(want)}
+                            r = impl[1]
+                            arrs = all(be.is_arr(w) for w in want)
+                            okk = (isinstance(r, BA) if arrs else isinstance(r, tuple)) and len(r) == len(want) and all(same(w, (r.arrays if arrs else r)[i]) for i, w in enumerate(want))
+                            return None if okk else {"attribute": name, "x": c["self"], "scico_result": show_impl(impl),
+                                                     "expected": ("BlockArray" if arrs else "tuple") + " of the per-block values", "per_block_jax": be.describe(want)}
+
                         ctx.disagree("block.method", {"section": "method", "fn": f"{kind}:{name}", "self": jsonable(x), "args": jsonable(extra or [])},
-                                     show_impl(impl), show(env, m, ev))
+                                     show_impl(impl), show(env, m, ev), oracle=meth_oracle)
     # x[k] for integer k (list indexing), len
     for n in range(0, 4):
         x = env.BlockArray([env.jnp.full((i + 1,), float(i)) for i in range(n)])
@@ -1046,7 +1069,14 @@ def section_pytree(env, ctx, model):
             impl = impl_call(f, [], {})
             ctx.case({"section": "constructor", "op": op, "inputs": tag}, ("constructor", op, tag))
             if not compare(env, m, impl, ev):
-                ctx.disagree("block.constructor", {"section": "constructor", "fn": op, "inputs": tag}, show_impl(impl), show(env, m, ev))
+                def dtype_oracle(c, impl=impl, inputs=inputs, op=op):
+                    # the property itself: a block array carries one homogeneous dtype
+                    if impl[0] == "ok" and isinstance(impl[1], BA) and len({str(b.dtype) for b in impl[1].arrays}) > 1:
+                        return {"constructed_by": "BlockArray(inputs)" if op == "mk" else "tree_unflatten(treedef, inputs)",
+                                "inputs": [be.describe(v) for v in inputs], "block_dtypes": [str(b.dtype) for b in impl[1].arrays]}
+                    return None
+
+                ctx.disagree("block.constructor", {"section": "constructor", "fn": op, "inputs": tag}, show_impl(impl), show(env, m, ev), oracle=dtype_oracle)
     # pytree round trips, jit, grad, tree_map
     for st in STRUCTS:
         for kd in ("x", "c", "i"):
